@@ -518,6 +518,8 @@ impl<'a> From<Piece<'a>> for Chunk {
                     }
 
                     let key = match formatter.args.first() {
+                        // an empty argument is the empty key
+                        Some(arg) if arg.is_empty() => String::new(),
                         Some(arg) => match plain_text(arg, "invalid MDC key") {
                             Ok(key) => key,
                             Err(e) => return Chunk::Error(e),
@@ -526,6 +528,8 @@ impl<'a> From<Piece<'a>> for Chunk {
                     };
 
                     let default = match formatter.args.get(1) {
+                        // an explicitly empty default is the default's default, the empty string
+                        Some(arg) if arg.is_empty() => String::new(),
                         Some(arg) => match plain_text(arg, "invalid MDC default") {
                             Ok(default) => default,
                             Err(e) => return Chunk::Error(e),
